@@ -147,6 +147,12 @@ func (e *Engine) RunStepImpl(c *dom.Ctx, mode StepMode) *ImplSummary {
 	for fn := range in.Funcs {
 		s.Funcs = append(s.Funcs, fn.String())
 	}
+	for fn, why := range in.Incomplete {
+		if s.Incomplete == nil {
+			s.Incomplete = map[string]string{}
+		}
+		s.Incomplete[fn.String()] = why
+	}
 	sort.Strings(s.Funcs)
 	for x := range in.Externals {
 		s.Externals = append(s.Externals, x)
